@@ -118,6 +118,12 @@ pub fn c04_table_generic_mutants() {
     assert!(type_digest::<mu::g::G<Vec<u32>>>() != type_digest::<mu::g::G<Box<[u32]>>>(), "C04: generic argument Vec vs Box<[]>");
     assert!(type_digest::<mu::k::K<2>>() != type_digest::<mu::k::K<3>>(), "C04: const-generic value 2 vs 3");
     assert!(type_digest::<mu::k::K<2>>() != type_digest::<mu::kq::K<2>>(), "C04: const-generic name N vs Q");
+    assert!(type_digest::<mu::kd::K<2>>() != type_digest::<mu::kd::K<3>>(), "C04: const-generic value 2 vs 3 (deep-copy struct)");
+    assert!(type_digest::<mu::kd::K<2>>() != type_digest::<mu::kdq::K<2>>(), "C04: const-generic name N vs Q (deep-copy struct)");
+    assert!(type_digest::<mu::ke::K<2>>() != type_digest::<mu::ke::K<3>>(), "C04: const-generic value 2 vs 3 (deep-copy enum)");
+    assert!(type_digest::<mu::ke::K<2>>() != type_digest::<mu::keq::K<2>>(), "C04: const-generic name N vs Q (deep-copy enum)");
+    assert!(type_digest::<mu::kz::K<2>>() != type_digest::<mu::kz::K<3>>(), "C04: const-generic value 2 vs 3 (zero-copy enum)");
+    assert!(type_digest::<mu::kz::K<2>>() != type_digest::<mu::kzq::K<2>>(), "C04: const-generic name N vs Q (zero-copy enum)");
     assert!(type_digest::<Vec<u32>>() != type_digest::<Box<[u32]>>(), "C04: sequence kind Vec vs Box<[]>");
     assert!(type_digest::<Vec<u32>>() != type_digest::<Vec<i32>>(), "C04: element type");
     assert!(type_digest::<Vec<u32>>() != type_digest::<[u32; 2]>(), "C04: sequence kind Vec vs array");
